@@ -31,7 +31,14 @@ theorem runBars_fm_hook {α : Type} (P : Ev → Option α) (c : Nat) (hP : ∀ e
     rfl
 
 theorem recordedAct_stamp {e : Ev} {a : Act} (h : recordedAct e = some a) : e.ts = some a.stamp := by
-  cases e <;> simp [recordedAct] at h <;> (rw [← h]; rfl)
+  cases e with
+  | opOk ts hk m tag => simp [recordedAct] at h; rw [← h]; rfl
+  | uact ts m tag => simp [recordedAct] at h; rw [← h]; rfl
+  | opFree ts hk m tag ok =>
+    cases ok
+    · simp [recordedAct] at h
+    · simp [recordedAct] at h; rw [← h]; rfl
+  | _ => simp [recordedAct] at h
 
 theorem recOf_stamp {ts : Int} {l : List Ev} (hl : ∀ e ∈ l, e.ts = some ts) : ∀ a ∈ recOf l, a.stamp = ts := by
   intro a ha
